@@ -643,6 +643,10 @@ class Engine:
         lins += division_axioms([goal])
         return lin.entails(lins, goal)
 
+    INT_BITS_ALL = {'unsigned char': 8, 'signed char': 8, 'char': 8, '_Bool': 8, 'bool': 8, 'unsigned short': 16, 'short': 16,
+                    'unsigned int': 32, 'int': 32, 'unsigned long': 64, 'long': 64, 'unsigned long long': 64, 'long long': 64,
+                    'uint8_t': 8, 'uint16_t': 16, 'uint32_t': 32, 'uint64_t': 64, 'size_t': 64, 'uint_least8_t': 8, 'ssize_t': 64}
+
     INT_MAX_OF = {'unsigned char': 255, 'unsigned short': 65535, 'unsigned int': (1 << 32) - 1, 'int': (1 << 31) - 1,
                   'short': 32767, 'signed char': 127, 'char': 127}
 
@@ -676,6 +680,47 @@ class Engine:
                     out.append((t, qt, 'may exceed %d' % mx))
                 elif t[0] == '-' and qt.startswith('unsigned') and not self.entails(list(facts) + rng, linearize(t[2]) - linearize(t[1])):
                     out.append((t, qt, 'may go below 0'))
+        return out
+
+    def narrowing_stores(self, paths):
+        """stores whose value is cut down to the width of the object it is stored in:
+           - a parameter, field, call result or loaded value narrower stored as it is (no arithmetic), or
+           - an arithmetic value stored into something narrower than its widest operand below 64 bits
+             (operands of size_t width are not counted: wrap at the top of the address space is not decided here).
+        Masked / shifted values that provably fit have lost their cast already (int_cast).  -> [(effect, to_type, why)]"""
+        out = []
+        seen = set()
+
+        def bits(qt):
+            qt = (qt or '').replace('const ', '').replace('volatile ', '').strip()
+            return self.INT_BITS_ALL.get(qt)
+
+        def atom_bits(a):
+            if a[0] == 'cast':
+                return bits(a[1])
+            return bits(self.types.get(a))
+        for p in paths:
+            for e in p.stores():
+                v = e.args[0] if e.args else None
+                if v is None or v[0] != 'cast' or '*' in v[1] or is_c(v[2]):
+                    continue
+                tb = bits(v[1])
+                if tb is None:
+                    continue
+                x = v[2]
+                key = (repr(e.name), v[1], repr(x))
+                if key in seen:
+                    continue
+                seen.add(key)
+                if x[0] in ('v', 'f', 'fv', 'call', 'i', 'h'):
+                    xb = atom_bits(x)
+                    if xb is not None and xb > tb:
+                        out.append((e, v[1], '%s (%d bits) is stored in a %d-bit object' % (fmt(x), xb, tb)))
+                    continue
+                ab = [atom_bits(a) for a in linearize(x).atoms()]
+                ab = [b for b in ab if b is not None and b < 64]
+                if ab and max(ab) > tb:
+                    out.append((e, v[1], '%s has a %d-bit operand and is stored in a %d-bit object' % (fmt(x), max(ab), tb)))
         return out
 
     def feasible(self, conds, extra=()):
@@ -1514,7 +1559,11 @@ class _Activation:
                     if self.record_fields(qt) is not None:
                         out.append((s, self.whole_struct(s, key)))
                     else:
-                        out.append((s, self.read(s, key, n)))
+                        v_ = self.read(s, key, n)
+                        if v_[0] in ('f', 'fv', 'i') and v_ not in self.e.types:
+                            dq = (n.get('type', {}).get('desugaredQualType') or qt)
+                            self.e.types[v_] = dq          # declared type of the object read (for width / range questions)
+                        out.append((s, v_))
                 return out
             if ck == 'ArrayToPointerDecay':
                 s0 = cast.strip(sub_)
@@ -1624,6 +1673,10 @@ class _Activation:
                     return C(v[1] & ((1 << tb) - 1)) if tb > 1 else C(int(bool(v[1])))
             return v
         if fb and tb and tb < fb:
+            # x & m with a constant mask that fits the target type is unchanged by the narrowing
+            if v[0] == '&b' and ((is_c(v[2]) and 0 <= v[2][1] < (1 << (tb - (0 if to_qt.replace('const ', '').strip().startswith('unsigned') else 1))))
+                                 or (is_c(v[1]) and 0 <= v[1][1] < (1 << (tb - (0 if to_qt.replace('const ', '').strip().startswith('unsigned') else 1))))):
+                return v
             return ('cast', to_qt.replace('const ', '').strip(), v)      # narrowing: opaque
         return v
 
